@@ -273,6 +273,15 @@ UNSUP_STMTS = [
     ("borrow-after-move", "bm2 = qubit()\ndiscard(bm2)\nh(bm2)"),
     ("subscript-move", "sm = array(qubit(), qubit())\nsm0 = sm[0]\ndiscard_array(sm)\ndiscard(sm0)"),
     ("pass", "pass"),
+    # a comprehension whose iterable mentions the name its own target binds: the iterable is evaluated in the
+    # ENCLOSING scope, where that name is undefined / defined on some paths only / defined in an earlier block
+    ("comp-self-named-undefined", "cs1 = array(zz + 1 for zz in zz)"),
+    ("comp-self-named-maybe", "if {v}:\n    zy = array(1, 2)\ncs2 = array(zy + 1 for zy in zy)"),
+    ("comp-self-named-earlier-block", "zx = array(1, 2)\nif {v}:\n    pass\ncs3 = array(zx + 1 for zx in zx)"),
+    ("comp-self-named-second-generator", "cs4 = array(a1 + b1 for a1 in range(2) for b1 in range(b1))"),
+    ("comp-first-target-in-second-iterable", "cs7 = array(a3 + b3 for a3 in range(2) for b3 in range(a3))"),
+    ("comp-guard-undefined", "cs5 = array(a2 for a2 in range(2) if zu > 0)"),
+    ("comp-self-named-list", "cs6 = [zt for zt in zt]"),
 ]
 
 UNSUP_EXPRS = [
@@ -790,6 +799,8 @@ ODD_ANNOTATIONS = [
     "nat", "None", "type", "1", "(int, int)", "[int]", "'int.foo'", "Option[qubit]", "Option", "array",
     "array[int]", "array[2, int]", "'array[int, 2, 3]'", "tuple", "tuple[()]", "str", "'array[int, -1]'",
     "'array[int, 1.5]'", "'array[int, True]'", "'array[array, 2]'", "'tuple[int, qubit @owned]'", "'Option[int, int]'",
+    # delayed annotations that are not exactly one expression statement
+    "''", "'  '", "'# todo'", "'int; bool'", "'tuple[int, \" \"]'", "'int\\n'", "'\\nint'", "'x = int'", "'pass'", "'(int'",
     "'array[int, 2][0]'", "'lambda: int'", "'int if True else bool'", "'[int for _ in range(2)]'", "'f\"int\"'",
 ]
 
